@@ -45,6 +45,11 @@ type C13Case struct {
 	// leaving its output in place and whatever it keeps under HOME. The first
 	// context of the group then runs with that HOME and that leftover.
 	Pre map[string]string `json:"pre_history_older_files,omitempty"`
+	// KilledAt > 0: right before context number KilledAt an earlier run of the same
+	// command line is interrupted while the package is being loaded (SIGTERM with
+	// the default disposition: no deferred function runs). Whatever such a run
+	// leaves behind is environment for the contexts after it; it is not compared.
+	KilledAt int `json:"killed_run_before_ctx,omitempty"`
 }
 
 var clockInstants = []int64{0, 1, 951782400 /*2000-02-29*/, 2147483647 /*2038-01-19*/, 2147483648, 1700000000, 4102444800 /*2100*/, 253402300799 /*9999-12-31*/, 1234567890}
@@ -70,6 +75,9 @@ func genC13(cfg Config, ws *WorldSet, i, nctx int) C13Case {
 		for _, f := range []string{"mod/domain/domain.go", "mod/model/model.go"} {
 			c.Pre[f] = strings.ReplaceAll(world.Files[f], " struct {\n", " struct {\n\tZzz int\n")
 		}
+	}
+	if kr := sim.Derive(cfg.Seed, "C13", "killed", i); nctx > 2 && kr.Chance(1, 2) {
+		c.KilledAt = 1 + kr.Intn(nctx-1)
 	}
 	for j := 0; j < nctx; j++ {
 		x := C13Ctx{Dims: map[string]string{}}
@@ -303,6 +311,15 @@ func execC13(env *sim.Env, c C13Case) CaseResult {
 				}
 			}
 			ExecSteps(env, root, pre, nil)
+			if c.KilledAt == j && j > 0 && rep == 0 {
+				kiv := c.Ctxs[0].Inv
+				kplan := &sim.Plan{Markers: genMarkers(sim.Derive(1, "C13", "killed-markers"), 4),
+					Faults: []sim.Fault{{Op: "Stat", Path: setupAbs, Nth: 2, Kind: "sigterm"}}}
+				ks := ExecSteps(env, root, []Step{{Op: "run", Inv: &kiv, Bin: "sim", Plan: kplan, Env: c.Ctxs[0].Env, HomeRel: "home-warm"}}, st)
+				if ks[0].Obs != nil && strings.HasPrefix(ks[0].Obs.Status, "signal:") {
+					st.Inc("n:runs_interrupted_while_loading")
+				}
+			}
 			run := Step{Op: "run", Inv: &x.Inv, Bin: x.Bin, Plan: x.Plan, Env: x.Env, GMP: x.GMP, HomeRel: "home-warm"}
 			if !x.WarmHome {
 				run.HomeRel = fmt.Sprintf("home-fresh-%d-%d", rep, j)
@@ -576,7 +593,7 @@ func runC13(cfg Config, args []string) int {
 		Exec:   func(c C13Case) CaseResult { return execC13(env, c) },
 		Shrink: shrinkC13,
 		Rule: fmt.Sprintf("one case = one world (fixture or synthetic, biased to several imports/interfaces, accepted and rejected) run %d times in fresh processes with the same flags while the seed varies marker bytes, simulated clock instant and step, pid, hostname, "+
-			"cwd and spelling of the input path, GOFILE vs argument, GOMAXPROCS, per-file stat delays (steering the concurrent ParseFile callbacks), TZ/LANG/TMPDIR/env noise, the variables go generate exports (GOPACKAGE of another package, GOLINE, DOLLAR), source mtimes whether the previous output is still in place (unchanged, or with one byte altered at the same length), and whether HOME is fresh or was used by earlier runs (a third of the groups start with a pre-history: one run over older sources of the imported packages in this directory and HOME); "+
+			"cwd and spelling of the input path, GOFILE vs argument, GOMAXPROCS, per-file stat delays (steering the concurrent ParseFile callbacks), TZ/LANG/TMPDIR/env noise, the variables go generate exports (GOPACKAGE of another package, GOLINE, DOLLAR), source mtimes whether the previous output is still in place (unchanged, or with one byte altered at the same length), and whether HOME is fresh or was used by earlier runs (a third of the groups start with a pre-history: one run over older sources of the imported packages in this directory and HOME; in half of the groups an earlier run of the same command line is interrupted by SIGTERM while the package is being loaded, right before one of the later contexts); "+
 			"a quarter of the runs use the unmodified binary. All runs of a group must agree on exit status, output bytes, stdout and (path-spelling-normalised) diagnostics. distinct_nontrivial counts distinct (world, input form, binary, GOMAXPROCS, touched, prior output) tuples.", nctx),
 		Assume: []string{"the module is never moved: all runs of a group happen in the same directory", "marker collisions with the source text are never generated",
 			"Go map iteration order and goroutine interleaving inside the real process are steered (GOMAXPROCS, stat delays) and sampled by repetition, not dictated; no oracle depends on them"},
